@@ -112,7 +112,7 @@ class Ctx:
         self._built = {}
         self._modfile = None
         self.known = [k for k in _load_known() if k.get("property") == pid]
-        self.cores = os.cpu_count() or 4
+        self.cores = _workers()
         self.quick = (tier == "quick")
 
     # ---------------------------------------------------------------- go build
@@ -354,6 +354,22 @@ class Ctx:
     def cleanup(self):
         if not os.environ.get("VERIF_KEEP"):
             shutil.rmtree(self.out, ignore_errors=True)
+
+
+def _workers():
+    """TLC worker count: VERIF_WORKERS, else all cores when the machine is idle, fewer when it is already loaded."""
+    n = os.cpu_count() or 4
+    if os.environ.get("VERIF_WORKERS"):
+        return max(1, int(os.environ["VERIF_WORKERS"]))
+    try:
+        load = os.getloadavg()[0]
+    except OSError:
+        load = 0
+    if load < n / 2:
+        return n
+    if load < 1.5 * n:
+        return max(2, n // 2)
+    return max(2, n // 4)
 
 
 def _key_match(pattern, key):
